@@ -40,6 +40,7 @@ def families(tier, seed):
         out.append(_w('let(values)', co.h_let_values, sh))
         out.append(_w('assign_from/apply', co.h_assign_apply, sh))
         out.append(_w('support', co.h_support, sh))
+        out.append(_w('support (later identifiers through add_vars)', co.h_support, sh, dict(late='add_vars')))
     shw = Shape(sys=co.SAME_WIDTH, name='same-width')
     out.append(_w('let(rename) between different hints', co.h_rename_replace, shw,
                   dict(pairs=[('p', 'r')], bool='b', hint_mismatch=[('p', 'q'), ('q', 'p'), ('q', 'r')])))
